@@ -100,6 +100,20 @@ func (e *Engine) errCtor(st *State, fn *ssa.Function, args []*Val, instr ssa.Ins
 		// errors built here are not sentinels of other packages (io.EOF ...)
 		e.declOnce("fun:isErrSite", "(declare-fun isErrSite (Int) Bool)")
 		e.addDecl(fmt.Sprintf("(assert (isErrSite %s))", name))
+		if _, isIface := fn.Signature.Results().At(0).Type().Underlying().(*types.Interface); isIface {
+			// the dynamic type of an error made by errors.New/Errorf/Wrap ...
+			// is a private type of the errors package: it implements no
+			// interface of the verified code
+			e.typeFuncs()
+			e.noteBoxedType(types.Typ[types.Invalid])
+			e.addDecl(fmt.Sprintf("(assert (= (typeof %s) %d))", name, e.typeID(types.Typ[types.Invalid])))
+		}
+		// constructors that wrap no other error: errors.As finds nothing
+		// but the error itself in such a chain
+		e.declOnce("fun:isPlainErr", "(declare-fun isPlainErr (Int) Bool)")
+		if k, _ := errCtorKind(fn.String()); k < 0 && fn.String() != "fmt.Errorf" {
+			e.addDecl(fmt.Sprintf("(assert (isPlainErr %s))", name))
+		}
 		switch fn.String() {
 		case "errors.New", "github.com/pkg/errors.New", "github.com/pkg/errors.Errorf":
 			// no Unwrap, no Is method: such an error Is only itself
@@ -108,6 +122,15 @@ func (e *Engine) errCtor(st *State, fn *ssa.Function, args []*Val, instr ssa.Ins
 		}
 	}
 	rt := fn.Signature.Results().At(0).Type()
+	// util errors: er.Errorf(...), er.Wrap(...) ... Is er (same id)
+	if recv := fn.Signature.Recv(); recv != nil && len(args) > 0 && args[0].T != "" && types.Identical(recv.Type(), rt) {
+		if _, isPtr := rt.Underlying().(*types.Pointer); isPtr {
+			box, _, _ := e.boxFuncs(rt)
+			e.declOnce("fun:errIs", "(declare-fun errIs (Int Int) Bool)")
+			st.assume(sx("errIs", sx(box, name), sx(box, args[0].T)))
+			e.Assumed["A8 util errors: er.Errorf/Wrap/WithMessage/WithStack(...) Is er"] = true
+		}
+	}
 	idx, _ := errCtorKind(fn.String())
 	if idx >= 0 && idx < len(args) {
 		return &Val{T: ite(eq(args[idx].T, "0"), "0", name), Ty: rt}
